@@ -312,8 +312,15 @@ Definition fd_stat (s : st) (fd : Z) : st * obs :=
 Definition with_base (s : st) (dirfd : Z) (p : path) (k : path -> st * obs) : st * obs :=
   match base s dirfd with inl e => (s, OErr e) | inr b => k (b ++ p) end.
 
+(* creating, removing or renaming the mount point itself is outside the model (WASI paths are never empty) *)
+Definition with_base_ne (s : st) (dirfd : Z) (p : path) (k : path -> st * obs) : st * obs :=
+  match base s dirfd with
+  | inl e => (s, OErr e)
+  | inr b => match b ++ p with [] => (s, OUnmodelled) | full => k full end
+  end.
+
 Definition mkdir (s : st) (dirfd : Z) (p : path) : st * obs :=
-  with_base s dirfd p (fun full =>
+  with_base_ne s dirfd p (fun full =>
     match resolve (s_tree s) full with
     | RNoent => (s, OErr ErrnoNoent)
     | RNotdir => (s, OErr ErrnoNoent)              (* wazero: dirFS.Mkdir maps ENOTDIR to ENOENT *)
@@ -322,7 +329,7 @@ Definition mkdir (s : st) (dirfd : Z) (p : path) : st * obs :=
     end).
 
 Definition rmdir (s : st) (dirfd : Z) (p : path) : st * obs :=
-  with_base s dirfd p (fun full =>
+  with_base_ne s dirfd p (fun full =>
     match resolve (s_tree s) full with
     | RNoent | RFree => (s, OErr ErrnoNoent)
     | RNotdir => (s, OErr ErrnoNotdir)
@@ -332,7 +339,7 @@ Definition rmdir (s : st) (dirfd : Z) (p : path) : st * obs :=
     end).
 
 Definition unlink (s : st) (dirfd : Z) (p : path) : st * obs :=
-  with_base s dirfd p (fun full =>
+  with_base_ne s dirfd p (fun full =>
     match resolve (s_tree s) full with
     | RNoent | RFree => (s, OErr ErrnoNoent)
     | RNotdir => (s, OErr ErrnoNotdir)
@@ -362,6 +369,7 @@ Definition rename (s : st) (dirfd : Z) (p : path) (dirfd2 : Z) (q : path) : st *
     | inl e => (s, OErr e)
     | inr b2 =>
       let a := b1 ++ p in let b := b2 ++ q in
+      if path_eqb a [] || path_eqb b [] then (s, OUnmodelled) else
       if path_eqb a b then (s, OOk)                  (* wazero: same path short-cut, even when it does not exist *)
       else
       match resolve (s_tree s) a, resolve (s_tree s) b with
@@ -371,7 +379,8 @@ Definition rename (s : st) (dirfd : Z) (p : path) (dirfd2 : Z) (q : path) : st *
       | _, RNotdir => (s, OErr ErrnoNotdir)
       | RFree, _ => (s, OErr ErrnoNoent)
       | RNode na, rb =>
-          if (match na with NDir => true | _ => false end) && strict_prefix a b then (s, OErr ErrnoInval)
+          if strict_prefix a b then        (* moving a directory into itself; a file cannot have anything below it *)
+            (s, OErr (match na with NDir => ErrnoInval | NFile _ => ErrnoNotdir end))
           else if strict_prefix b a then (s, OErr ErrnoNotempty)      (* the target is an ancestor of the source *)
           else match na, rb with
                | NFile _, RNode NDir => (s, OErr ErrnoIsdir)
